@@ -51,6 +51,8 @@ def op_lit(op):
         return "(OSetLink %s %s %s)" % (cN(op[1]), op[2], "(@None N)" if op[3] is None else "(Some %s)" % cN(op[3]))
     if t == "set_attr":
         return "(OSetAttr %s %s %s)" % (cN(op[1]), op[2], opt_tok(op[3]))
+    if t == "force":
+        return "(OForce %s %s %s)" % (cN(op[1]), cbool(op[2]), cZ(op[3]))
     if t == "probe":
         return "(OProbe %s %s)" % (cN(op[1]), op[2])
     if t == "probe_link":
